@@ -115,6 +115,10 @@ func convFunc(c conv) func(int) (int, error) {
 	return func(v int) (int, error) {
 		out, ok := applyConv(c, item{val: v})
 		if !ok {
+			if v%3 == 0 {
+				// the no-value mark may arrive wrapped: the item is dropped all the same
+				return 0, fmt.Errorf("filtered %d: %w", v, schema.ErrNoValue)
+			}
 			return 0, schema.ErrNoValue
 		}
 		if out.err != "" {
